@@ -173,6 +173,7 @@ def run_c21(ctx):
     ]
     if ctx.replay_only is not None:
         cases = [_conv_glob(d["case"]) for d in ctx.replay_only]
+        _tlc(ctx, "Glob", "MC_Glob_sanity.cfg", workers=8)          # the saved cases carry the spec's expectations
     else:
         if not ctx.quick:
             vlib.tlc(ctx, "Glob", "MC_Glob_sanity.cfg", workers=8)
@@ -205,6 +206,9 @@ def run_c21(ctx):
                 if drift <= 3:
                     ctx.drift("glob model differs from the code inside the allowed bounds: inc=%s exc=%s root=%s got=%s model=%s"
                               % (c["inc"], c["exc"], c["root"], o["res"], c["algo"]))
+    if not ctx.samples and cases:
+        c0 = cases[0]
+        ctx.samples.append(dict(case={k: v for k, v in c0.items() if k not in ("_conv", "files", "forbid")}, observed=obs[c0["id"]]))
     ctx.traces_validated = len(cases)
     ctx.extra["violating_observations_by_signature"] = classes
     ctx.extra["model_drift_cases"] = drift
@@ -307,6 +311,7 @@ def run_c22(ctx):
     ]
     if ctx.replay_only is not None:
         cases = [_conv_walk(d["case"]) for d in ctx.replay_only]
+        _tlc(ctx, "PackageWalk", "MC_PackageWalk_sanity.cfg", workers=8)
     else:
         if not ctx.quick:
             vlib.tlc(ctx, "PackageWalk", "MC_PackageWalk_sanity.cfg", workers=8)
@@ -336,6 +341,9 @@ def run_c22(ctx):
             if drift <= 3:
                 ctx.drift("walk model differs from the code inside the allowed bounds: pkgs=%s dir=%s bl=%s ex=%s got=%s/%s model=%s/%s"
                           % (c["pkgs"], c["dir"], c["bl"], c["ex"], o["found"], o.get("contains"), c["algo"], c["calgo"]))
+    if not ctx.samples and cases:
+        c0 = cases[0]
+        ctx.samples.append(dict(case={k: v for k, v in c0.items() if k not in ("_conv", "files", "forbid")}, observed=obs[c0["id"]]))
     ctx.traces_validated = len(cases)
     ctx.extra["violating_observations_by_signature"] = classes
     ctx.extra["model_drift_cases"] = drift
